@@ -735,7 +735,18 @@ impl Ctx {
                     let mut got: Vec<Entity> = with_bundle!(*k, T, {
                         let items: Vec<T> = rows.iter().map(|r| <T as StaticBundle>::make(&serials_of(r))).collect();
                         match via.as_str() {
-                            "batch" => world.spawn_batch(items).collect(),
+                            "batch" => {
+                                let it = world.spawn_batch(items);
+                                let announced = (it.len(), it.size_hint());
+                                let es: Vec<Entity> = it.collect();
+                                assert!(
+                                    announced == (es.len(), (es.len(), Some(es.len()))),
+                                    "impl-inconsistency: spawn_batch announced {:?} and yielded {}",
+                                    announced,
+                                    es.len()
+                                );
+                                es
+                            }
                             "extend" | "collect" => {
                                 world.extend(items);
                                 Vec::new()
@@ -787,7 +798,15 @@ impl Ctx {
             Op::SpawnCb { w, decl, rows } => {
                 let batch = build_column_batch(decl, rows);
                 let world = self.world(*w);
-                let es: Vec<Entity> = world.spawn_column_batch(batch).collect();
+                let it = world.spawn_column_batch(batch);
+                let announced = (it.len(), it.size_hint());
+                let es: Vec<Entity> = it.collect();
+                assert!(
+                    announced == (es.len(), (es.len(), Some(es.len()))),
+                    "impl-inconsistency: spawn_column_batch announced {:?} and yielded {}",
+                    announced,
+                    es.len()
+                );
                 self.push_handles(&es);
                 (
                     format!("spawn_cb W{} ts={} rows={}", w, show_nats(&canon_types(decl)), show_rows(rows)),
